@@ -2,7 +2,7 @@
 //verif:use fakes_client
 //verif:use fakes_mcp
 //verif:use streams_mcp
-//verif:bound one pending call per client and one fault: the answer stream has delivered {nothing, an id line, a partial data line, a complete notification event, the complete answer} when it {ends (EOF), fails (reset), stalls and the caller's context is cancelled, stalls and the deadline passes}; Streamable client with SSE answers (with / without notification handler) and JSON answers cut at {start, middle, end}; legacy SSE client (pending call, then a second call after the stream ended); stdio client transport with {context cancelled, transport timeout, the child process exiting with status 0 or 3 with or without a truncated line before (a real /bin/sh natively, a modelled exec.Cmd whose Wait blocks until the exit in the engine), Close from another goroutine - every schedule with <= 2 preemptions}; legacy SSE client: Close while the reader delivers an answer - every schedule with <= 3 (thorough 4) preemptions; release: goroutines and table entries after Close on each client and after the peer's streams end on the Streamable and legacy SSE servers
+//verif:bound one pending call per client and one fault: the answer stream has delivered {nothing, an id line, a partial data line, a complete notification event, the complete answer} when it {ends (EOF), fails (reset), stalls and the caller's context is cancelled, stalls and the deadline passes}; Streamable client with SSE answers (with / without notification handler) and JSON answers cut at {start, middle, end}; legacy SSE client (pending call, then a second call after the stream ended); stdio client transport with {context cancelled, transport timeout, the child process exiting with status 0 or 3 with or without a truncated line before (a real /bin/sh natively, a modelled exec.Cmd whose Wait blocks until the exit in the engine), Close from another goroutine - every schedule with <= 2 preemptions}; legacy SSE client: Close while the reader delivers an answer - every schedule with <= 3 (thorough 4) preemptions; release: goroutines and table entries after Close on each client and after the peer's streams end on the Streamable and legacy SSE servers; Streamable server: the write of a server-issued request to the listening stream fails (at the id line, the data line or the closing blank line), then a notification and a second request (context then cancelled) to the same session
 //verif:assume request bodies observe the request context as net/http's do (a read fails once the context ends); real sockets, child processes and file descriptors are outside the claim (the stdio transport runs over in-memory pipes); faults at byte offsets other than the listed boundaries are outside the bound
 package mcp
 
@@ -490,6 +490,9 @@ func H_C08_streamable_server_release() {
 	vAssert("no-goroutine-left-behind", vGoroutines() <= base)
 	vReach("end")
 }
+
+// H_C08_streamable_server_write_failure: the peer goes away while a server-issued request is written.
+func H_C08_streamable_server_write_failure() { c11StreamWriteFailure() }
 
 // H_C08_legacy_server_release: a legacy SSE session whose peer goes away.
 func H_C08_legacy_server_release() {
